@@ -3,7 +3,8 @@ SF = 'prysm/x/raytracing/surfaces.py'
 CATALOGUE = [
     ('mutant', SM, "    r = r / np.sqrt(_multi_dot(r, r))[:, np.newaxis]\n", "", 'C19.unit', 'refract with the un-normalised normal (pinned defect)'),
     ('mutant', SM, "    second_term = mu * (S - cosI[:, np.newaxis] * r)", "    second_term = mu * (S + cosI[:, np.newaxis] * r)", 'C19.unit', 'refract tangential sign'),
-    ('mutant', SM, "    first_term = np.sqrt(1 - musq * (1 - cosIsq))[:, np.newaxis] * r", "    first_term = np.sqrt(1 - mu * (1 - cosIsq))[:, np.newaxis] * r", 'C19.unit', 'refract uses mu instead of mu^2'),
+    ('mutant', SM, "    first_term = (sgn * np.sqrt(1 - musq * (1 - cosIsq)))[:, np.newaxis] * r", "    first_term = (sgn * np.sqrt(1 - mu * (1 - cosIsq)))[:, np.newaxis] * r", 'C19.unit', 'refract uses mu instead of mu^2'),
+    ('mutant', SM, "    sgn = np.where(cosI < 0, -1., 1.)\n", "    sgn = 1.\n", 'C19.unit', 'refract ignores the side the ray comes from (pinned defect)'),
     ('mutant', SM, "    cosI = _multi_dot(S, r) / rnorm", "    cosI = _multi_dot(S, r)", 'C19.unit', 'reflect without normalisation'),
     ('mutant', SM, "    return S - 2 * cosI * r", "    return S - cosI * r", 'C19.unit', 'reflect loses the factor 2'),
     ('mutant', SM, "            Rt = surf.R.T\n", "            Rt = surf.R\n", 'C19.rigid', 'back-transform with R instead of R^T'),
@@ -14,7 +15,7 @@ CATALOGUE = [
     ('mutant', SF, "    x = fp * cost - ftbyr * sint\n    y = fp * sint + ftbyr * cost", "    x = fp * cost + ftbyr * sint\n    y = fp * sint + ftbyr * cost", 'C19.normal', 'polar to Cartesian sign'),
     ('mutant', SM, "        sjp1 = sj_mask - Fj / Fpj", "        sjp1 = sj_mask + Fj / Fpj", 'C19.normal', 'Newton step sign'),
     ('variant', SM, "    rnorm = _multi_dot(r, r)\n", "    rnorm = _multi_dot(r, r) * 1.0\n", '', 'reflect normalisation spelled differently'),
-    ('variant', SM, "    first_term = np.sqrt(1 - musq * (1 - cosIsq))[:, np.newaxis] * r\n    second_term = mu * (S - cosI[:, np.newaxis] * r)\n    return first_term + second_term", "    k = np.sqrt(1 - musq + musq * cosIsq) - mu * cosI\n    return mu * S + k[:, np.newaxis] * r", '', 'refract in the compact textbook form'),
+    ('variant', SM, "    first_term = (sgn * np.sqrt(1 - musq * (1 - cosIsq)))[:, np.newaxis] * r\n    second_term = mu * (S - cosI[:, np.newaxis] * r)\n    return first_term + second_term", "    k = sgn * np.sqrt(1 - musq + musq * cosIsq) - mu * cosI\n    return mu * S + k[:, np.newaxis] * r", '', 'refract in the compact textbook form'),
     ('variant', SM, '        delta = abs(sjp1 - sj_mask)\n', '        delta = np.abs(sjp1 - sj_mask)\n', '', 'newton: np.abs'),
     ('variant', SM, '        if surf.R is None:\n            Rt = None\n        else:\n            # transformation matrix has inverse which is its transpose\n            Rt = surf.R.T\n', '        Rt = None\n        if surf.R is not None:\n            Rt = surf.R.T\n', '', 'raytrace: Rt reset at the top of each pass'),
 ]
